@@ -106,6 +106,22 @@ func newJSONRPCErrorResponse(id interface{}, code int, message string, data inte
 	return errResp
 }
 
+// marshalJSONRPCMessage encodes an outgoing message. A success response whose result cannot be encoded
+// becomes an internal-error response for the same request id that carries the encoder's error text.
+func marshalJSONRPCMessage(msg interface{}) ([]byte, error) {
+	data, err := json.Marshal(msg)
+	if err == nil {
+		return data, nil
+	}
+	switch m := msg.(type) {
+	case JSONRPCResponse:
+		return json.Marshal(newJSONRPCErrorResponse(m.ID, ErrCodeInternal, err.Error(), nil))
+	case *JSONRPCResponse:
+		return json.Marshal(newJSONRPCErrorResponse(m.ID, ErrCodeInternal, err.Error(), nil))
+	}
+	return nil, err
+}
+
 // newJSONRPCNotification creates a new JSON-RPC notification
 func newJSONRPCNotification(notification Notification) *JSONRPCNotification {
 	return &JSONRPCNotification{
